@@ -18,12 +18,33 @@ NAMED = {0x02: "CheckCondition", 0x04: "ConditionsMet", 0x08: "BusyStatus", 0x18
          0x28: "TaskSetFull", 0x30: "ACAActive", 0x40: "TaskAborted"}
 
 
+DESC_LEN = {0x00: 10, 0x01: 10, 0x02: 6, 0x03: 2, 0x04: 2, 0x05: 2, 0x06: 30, 0x09: 12, 0x0A: 6, 0x0D: 10, 0x80: 4}
+
+
 def sense_buf(rng):
+    """sense data as a target sends it: half of the time well formed (fixed format incl. truncated
+    lengths; descriptor format with a list of well-formed descriptors of every kind, each kind also
+    as the first descriptor), otherwise arbitrary bytes behind a valid response code"""
     rc = rng.choice([0x70, 0x71, 0x72, 0x73])
-    n = rng.choice([18, 18, 32, 8, 96])
-    b = bytearray(rng.getrandbits(8) for _ in range(n))
-    b[0] = rc
-    return b
+    if rng.random() < 0.5:
+        n = rng.choice([18, 18, 32, 8, 96])
+        b = bytearray(rng.getrandbits(8) for _ in range(n))
+        b[0] = rc
+        return b
+    key, asc, ascq = rng.randrange(16), rng.getrandbits(8), rng.getrandbits(8)
+    if rc in (0x70, 0x71):
+        b = bytearray(18)
+        b[0] = rc | (0x80 if rng.getrandbits(1) else 0)
+        b[2] = key | (rng.getrandbits(3) << 5)
+        b[3:7] = rng.getrandbits(32).to_bytes(4, "big")
+        b[7] = 10
+        b[12], b[13] = asc, ascq
+        b[15:18] = rng.getrandbits(24).to_bytes(3, "big")
+        return b[:rng.choice([18, 18, 18, 14, 8])]
+    body = bytearray()
+    for ty in rng.sample(sorted(DESC_LEN), rng.choice([0, 1, 1, 2, 3])):
+        body += bytes([ty, DESC_LEN[ty]]) + bytes(rng.getrandbits(8) for _ in range(DESC_LEN[ty]))
+    return bytearray([rc, key, asc, ascq, 0, 0, 0, len(body)]) + body
 
 
 def run(res, tier, build_ok):
@@ -109,6 +130,29 @@ def run(res, tier, build_ok):
                     reqs.append(("iscsiexec %d %s n %d" % (status, hx(sense), raw),
                                  "ok %s sense=%s raw=%s" % (out, hx(cmd.sense) if cmd.sense is not None else "n",
                                                             hx(cmd.raw_sense_data) if cmd.raw_sense_data is not None else "n"), "iscsi"))
+    # ---- CHECK CONDITION with every kind of well-formed sense: each descriptor type first, every sense key, both formats
+    shapes = []
+    for ty in sorted(DESC_LEN):
+        for rc in (0x72, 0x73):
+            key = rng.randrange(16)
+            body = bytes([ty, DESC_LEN[ty]]) + bytes(rng.getrandbits(8) for _ in range(DESC_LEN[ty]))
+            if rng.getrandbits(1):
+                body += bytes([0x00, 10]) + bytes(10)
+            shapes.append(bytearray([rc, key, rng.getrandbits(8), rng.getrandbits(8), 0, 0, 0, len(body)]) + body)
+    for key in range(16):
+        for rc in (0x70, 0x71, 0xF0):
+            b = bytearray(18)
+            b[0], b[2], b[7], b[12], b[13] = rc, key, 10, rng.getrandbits(8), rng.getrandbits(8)
+            shapes.append(b)
+    for sense in shapes:
+        for raw in (False, True):
+            for kind, dev in (("sgio", sdev), ("iscsi", idev)):
+                state["status"], state["sense"] = 2, sense
+                cmd = fresh_cmd()
+                out, exc = observe(dev, cmd, raw)
+                res.case((kind, "shape", bytes(sense), raw), None)
+                res.count("well-formed sense shapes " + kind)
+                judge(kind, 2, sense, raw, cmd, out, exc, "sense-shape")
     # ---- sequences re-executing command objects (stale sense), mixed outcomes
     for it in range(80 if not thorough else 600):
         kind, dev = rng.choice([("sgio", sdev), ("iscsi", idev)])
